@@ -9,6 +9,8 @@ import LarkVerif.LRComplete
 import LarkVerif.LALRTable
 import LarkVerif.Shape
 import LarkVerif.Scan
+import LarkVerif.Transform
+import LarkVerif.TransformEmbed
 import Std.Data.HashMap
 /-! Line-protocol driver: one JSON request per stdin line (`{"op": ...}`), one JSON answer per stdout line.
     Runs the *executable definitions the theorems are about*.  Not part of the proof library. -/
@@ -302,6 +304,41 @@ def runShape (j : Json) : Except String Json := do
     | .node _ r kids rest => (r.markers.count false == kids.len) && wf kids && wf rest
   pure (Json.mkObj [("built", Json.arr (built.map (fun x => valJ x.2)).toArray), ("spec", Json.arr (spec.map (fun x => valJ x.2)).toArray), ("wf", Json.bool (wf d))])
 
+-- C16: callbacks are interpreted freely (term algebra): a callback application is marked by adding `cbMark` to the label
+def cbMark : Nat := 1000000
+
+open ShapeProto EmbedProto in
+def runEmbed (j : Json) : Except String Json := do
+  let d ← dOf (← getArr j "forest")
+  let cbNodes ← natListOf (← j.getObjVal? "cb_nodes")
+  let cbToks ← natListOf (← j.getObjVal? "cb_toks")
+  let f : Nat → List Val → Val := fun n ks => if cbNodes.contains n then Val.tree (n + cbMark) ks else Val.tree n ks
+  let g : Nat → Nat → Val := fun ty v => if cbToks.contains ty then Val.tok (ty + cbMark) v else Val.tok ty v
+  let emb := (buildListT f g d).map (·.2)
+  let aft := (buildList d).map (fun x => trV f g x.2)
+  pure (Json.mkObj [("embedded", Json.arr (emb.map valJ).toArray), ("after", Json.arr (aft.map valJ).toArray)])
+
+open TrProto in
+partial def forestOf (l : List Json) : Except String Forest := do
+  match l with
+  | [] => pure Forest.nil
+  | x :: rest =>
+    let r ← forestOf rest
+    match x.getObjVal? "k" with
+    | .ok ks => pure (Forest.node (← getNat x "d") (← forestOf (← ks.getArr?).toList) r)
+    | .error _ => pure (Forest.leaf (← getNat x "t") r)
+
+open TrProto in
+def runTransform (j : Json) : Except String Json := do
+  let F ← forestOf (← getArr j "forest")
+  let cbData ← natListOf (← j.getObjVal? "cb_data")
+  let cbToks ← natListOf (← j.getObjVal? "cb_toks")
+  let f : Nat → List Json → Json := fun d ks => Json.mkObj [(if cbData.contains d then "c" else "T", natJ d), ("a", Json.arr ks.toArray)]
+  let g : Nat → Json := fun t => Json.mkObj [(if cbToks.contains t then "ct" else "t", natJ t)]
+  let rec_ := tr f g F
+  let stack := runStack f g (postOrder F) []
+  pure (Json.mkObj [("recursive", Json.arr rec_.toArray), ("stack", Json.arr stack.reverse.toArray), ("instrs", natJ (postOrder F).length)])
+
 def handle (j : Json) : Except String Json := do
   let op ← getStr j "op"
   match op with
@@ -348,6 +385,8 @@ def handle (j : Json) : Except String Json := do
   | "earley" => runEarley j
   | "lr_table" => runLrTable j
   | "shape" => runShape j
+  | "embed" => runEmbed j
+  | "transform" => runTransform j
   | "scan" =>
     let n ← getNat j "n"
     let pos ← getNat j "pos"
